@@ -23,8 +23,6 @@ Lemma usability_reasons_ok :
 Proof. reflexivity. Qed.
 Lemma sdist_extra_default_ok : sdist_extra_default = ""%string.
 Proof. reflexivity. Qed.
-Lemma fallback_guard_ok : fallback_requires_not_gave_up = true.
-Proof. reflexivity. Qed.
 Lemma py_minor_reads_all_digits_ok : py_minor_reads_all_digits = true.
 Proof. reflexivity. Qed.
 Lemma pin_ops_ok : forall c, is_pin_clause c = true -> cop c = OEq /\ cwild c = false.
@@ -399,37 +397,28 @@ Proof.
   destruct (attempt st rq cs true); reflexivity.
 Qed.
 
-Lemma do_get_candidate_unfold st rq cs :
-  do_get_candidate st rq cs false =
-  match attempt st rq cs (allow_pre st) with
-  | SFound c => Found c
-  | r => if fallback_cond rq cs && negb (allow_pre st) && negb (gave_up r)
-         then do_get_candidate st rq cs true else NoCandidate
-  end.
-Proof.
-  rewrite do_get_candidate_forced. unfold do_get_candidate. cbn [orb]. rewrite fallback_guard_ok. cbn [andb].
-  destruct (attempt st rq cs (allow_pre st)); reflexivity.
-Qed.
-
+(* which pass answers; generic in the (T1) flag fallback_requires_not_gave_up *)
 Lemma get_dist_cases st rq cs :
   (exists c, attempt st rq cs (allow_pre st) = SFound c /\ get_dist st rq cs = Found c /\
              answer_flag st rq cs = allow_pre st) \/
-  (attempt st rq cs (allow_pre st) = SExhausted /\ fallback_cond rq cs = true /\ allow_pre st = false /\
+  ((attempt st rq cs (allow_pre st) = SExhausted \/
+    (attempt st rq cs (allow_pre st) = SGaveUp /\ fallback_requires_not_gave_up = false)) /\
+   fallback_cond rq cs = true /\ allow_pre st = false /\
    answer_flag st rq cs = true /\
    get_dist st rq cs = match attempt st rq cs true with SFound c => Found c | _ => NoCandidate end) \/
   ((forall c, attempt st rq cs (allow_pre st) <> SFound c) /\
    (attempt st rq cs (allow_pre st) = SGaveUp \/ fallback_cond rq cs = false \/ allow_pre st = true) /\
    get_dist st rq cs = NoCandidate).
 Proof.
-  unfold get_dist. rewrite do_get_candidate_unfold, do_get_candidate_forced. unfold answer_flag.
-  destruct (attempt st rq cs (allow_pre st)) as [c| |] eqn:E1.
+  unfold get_dist, do_get_candidate, answer_flag. cbn [orb].
+  destruct (attempt st rq cs (allow_pre st)) as [c| |] eqn:E1; cbn [gave_up].
   - left. exists c. auto.
-  - right. destruct (fallback_cond rq cs) eqn:Ef, (allow_pre st) eqn:Ea; cbn.
-    + right. split; [discriminate|]. auto.
-    + left. auto 6.
-    + right. split; [discriminate|]. auto.
-    + right. split; [discriminate|]. auto.
-  - right; right. rewrite andb_false_r. split; [discriminate|]. auto.
+  - right.
+    destruct fallback_requires_not_gave_up eqn:Eg, (fallback_cond rq cs) eqn:Ef, (allow_pre st) eqn:Ea; cbn;
+      first [ right; split; [discriminate|]; solve [auto] | left; solve [auto 8] ].
+  - right.
+    destruct fallback_requires_not_gave_up eqn:Eg, (fallback_cond rq cs) eqn:Ef, (allow_pre st) eqn:Ea; cbn;
+      first [ right; split; [discriminate|]; solve [auto] | left; solve [auto 8] ].
 Qed.
 
 (* ------------------------------------------------------------------------------------ *)
@@ -544,36 +533,16 @@ Proof.
   rewrite Hop, Hw in Hall. exact Hall.
 Qed.
 
-(* full strength since the fallback pass is skipped when the first pass gave up on the budget
-   (obligation fallback_guard_ok on the T1-read condition) *)
-Lemma prerelease_declarative st rq cs c :
-  get_dist st rq cs = Found c -> is_prerelease (ver c) = true ->
-  allow_pre st = true \/ pinned_exactly rq c \/ nothing_but_prereleases st rq cs.
-Proof.
-  intros H Hp. destruct (has_equality rq) eqn:Heq.
-  { right; left. eapply has_equality_pins; eauto. apply (select_sound _ _ _ _ H). }
-  destruct (get_dist_cases st rq cs) as [(c' & E1 & E2 & E3)|[(E1 & Ef & Ea & E3 & E2)|(E1 & _ & E2)]].
-  - (* answered by the first pass: flag = allow_pre st; c is a pre-release, so the flag is on *)
-    pose proof (select_sound _ _ _ _ H) as [(_ & _ & Hspec & _) _].
-    unfold spec_contains in Hspec. rewrite Hp, Heq, E3 in Hspec. cbn in Hspec.
-    left. destruct (allow_pre st); [reflexivity|discriminate].
-  - rewrite Ea in E1. apply attempt_exhausted in E1.
-    right; right. intros g Hg Hgood.
-    destruct (is_prerelease (ver g)) eqn:Eg; [reflexivity|exfalso].
-    apply (E1 g); [|exact Hgood]. destruct Hg as (G1 & G2 & G3 & G4).
-    repeat split; auto. unfold spec_contains in *. rewrite Heq, Eg. cbn.
-    apply andb_true_iff in G3 as [_ G3]. exact G3.
-  - congruence.
-Qed.
-
 Lemma select_complete st rq cs : get_dist st rq cs = NoCandidate ->
   pass_exhausted st rq cs (allow_pre st) /\
   (fallback_cond rq cs = true -> pass_exhausted st rq cs true \/ budget_cut st rq cs (allow_pre st)).
 Proof.
   intros H. destruct (get_dist_cases st rq cs) as [(c' & E1 & E2 & E3)|[(E1 & Ef & Ea & E3 & E2)|(E1 & Hor & E2)]].
   - congruence.
-  - split; [left; apply attempt_exhausted; exact E1|]. intros _. left.
-    rewrite E2 in H. apply attempt_not_found. intros c Hc. rewrite Hc in H. discriminate.
+  - split.
+    + destruct E1 as [E1|[E1 _]]; [left; apply attempt_exhausted; exact E1|right; apply attempt_gave_up; exact E1].
+    + intros _. left.
+      rewrite E2 in H. apply attempt_not_found. intros c Hc. rewrite Hc in H. discriminate.
   - split; [apply attempt_not_found; exact E1|]. intros Hf.
     destruct Hor as [Hg|[Hor|Hor]].
     + right. apply attempt_gave_up; exact Hg.
@@ -606,19 +575,6 @@ Definition w31a := mk "x-3.1a1-py3-none-any.whl" (v_ [3%N; 1%N] (Some (PA, 1%N))
 
 Definition st_b1 := mkSet false true (Some 1%Z).
 Definition st_unl := mkSet false true None.
-
-(* budget 1: 3.0 is unreadable, the first pass gives up; the fallback pass is not entered although
-   the requirement mentions a pre-release, because the final 2.0 may still satisfy (the former
-   witness of the refuted strict reading; corpus/C03/prerelease-after-budget.json) *)
-Example ex_no_prerelease_after_budget : get_dist st_b1 rq_ge_pre [w30; w20; w31a] = NoCandidate.
-Proof. vm_compute. reflexivity. Qed.
-Example ex_declarative_hyp :
-  get_dist st_unl rq_ge_pre [w30; w31a] = Found w31a /\ is_prerelease (ver w31a) = true /\
-  nothing_but_prereleases st_unl rq_ge_pre [w30; w31a].
-Proof.
-  split; [vm_compute; reflexivity|]. split; [reflexivity|].
-  intros g (Hin & _) (Hr & _). destruct Hin as [<-|[<-|[]]]; [discriminate Hr|reflexivity].
-Qed.
 
 Example ex_found_newest : get_dist st_unl rq_any [s20; w30; w20; w31a] = Found w20.
 Proof. vm_compute. reflexivity. Qed.
